@@ -11,8 +11,8 @@ def hist(text, tech="model-based (stateful) property-based testing: generated op
 
 CHECKS = {
     "C01": hist("Every callback of every generated history is judged: live registration, own unconsumed cause (ping count, channel FIFO head, live timer arming, poll(2)-confirmed fd readiness under the interest registered), own registration key. Search over histories is the natural level for a statement quantified over histories; absence is not shown."),
-    "C02": hist("Obligation snapshot at dispatch start (pings, queued messages / closed channels, expired timers, poll(2) readiness per interest and trigger mode) must be served by an Ok dispatch unless waived by an in-dispatch mutation; one-shot upper bound and edge lower bound over the history."),
-    "C05": hist("Per-arming model of every timer: never early, event == current deadline, deadline order within a dispatch, window rule for 'first dispatch at or after the deadline', cancelled armings never fire, heap length == live armings after every step (statistics hook). Real monotonic clock; only order-insensitive window arguments are used."),
+    "C02": hist("Obligation snapshot at dispatch start (pings, queued messages / closed channels, expired timers, poll(2) readiness per interest and trigger mode) must be served by an Ok dispatch unless waived by an in-dispatch mutation; one-shot upper bound and edge lower bound over the history. Causes produced by another thread while the loop dispatches are covered by re-running the schedule families of C03/C04/C10 and keeping their lost-wake-up rules (sub-checks xthread.*).", "model-based (stateful) property-based testing: generated operation histories incl. in-callback programs, trace-checking reference monitor, proptest shrinking; plus generated thread schedules (cooperative scheduler over the yield hook) for cross-thread causes; thorough tier adds a coverage-guided libFuzzer campaign (cargo-fuzz, ASan) over the history grammar"),
+    "C05": hist("Per-arming model of every timer: never early, event == current deadline, deadline order within a dispatch, window rule for 'first dispatch at or after the deadline', cancelled armings never fire, heap length == live armings after every step (statistics hook), source-list length never above the number of slots ever needed at once. Real monotonic clock; only order-insensitive window arguments are used."),
     "C06": hist("All removal paths, slot reuse, every stale token exercised; register/unregister call counts of instrumented sources show that dead tokens touch nothing; drop counters of sources, callbacks and idles are exactly one at the end; Dispatcher::into_source_inner must succeed after removal; loop/handle drop order both ways."),
     "C07": hist("No callback between disable and the next successful enable (also for events already in the batch), token stays valid, causes pending at enable are obligated afterwards, no registration call on any other source."),
     "C08": hist("Every LoopHandle operation issued from generated callback / idle programs (nested to depth 3) against the running source, batch neighbours, stale tokens and fresh inserts: no panic (caught at the dispatch boundary, attributed by location) and the same model effect as outside a dispatch."),
@@ -20,17 +20,17 @@ CHECKS = {
     "C13": hist("Idle callbacks: exactly once, after all source callbacks of the first Ok dispatch, insertion order, idle-of-idle deferred to the next dispatch, cancelled never, failed dispatch runs none, closures dropped exactly once."),
     "C14": hist("Lifecycle probes with several ping sub-sources and optional synthetic events: one before_sleep then one before_handle_events per live lifecycle source before any event processing, synthetic event delivered in the same dispatch and never shown to the iterator, iterator covers exactly own real events, lifecycle list == enabled lifecycle sources after every step incl. failed registrations."),
     "C15": ("hist", "fault_enumeration", "fault enumeration: every fault site (probe register sub-step / reregister / unregister / process_events / before_sleep call, in execution order) of each generated fault-free base history is failed in a run of its own; plus sampled fault injection inside random histories (scripted Err returns, bad fds, composites with a rejected child); trace-checking reference monitor; thorough tier adds a coverage-guided libFuzzer campaign over the same grammar and oracle", "Faults are injected at generated registration steps and event-processing calls of generated histories which then continue; the failing call must return its error, hand the source back, leave slots / lifecycle list / kernel table as before, never make a later dispatch panic, and every cause pending before an Err must still be served afterwards. Sub-check 'positions' enumerates all fault positions of every generated base history (exhaustive per base history; the base histories themselves are sampled); sub-check 'hist' samples positions inside longer random histories.", HIST_NOTE, "DESIGN.md section 4 C15"),
-    "C16": hist("After every step the kernel's epoll table (/proc/self/fdinfo) minus polling's own entries must equal the model's set of enabled fd registrations: keys for all, interest/mode bits and fd for Generic sources; released fds are re-inserted.", "model-based property-based testing with a kernel oracle (/proc/self/fdinfo epoll table) after every generated step; thorough tier adds a coverage-guided libFuzzer campaign over the same history grammar and oracle"),
+    "C16": hist("After every step the kernel's epoll table (/proc/self/fdinfo) minus polling's own entries must equal the model's set of enabled fd registrations: keys for all, interest/mode bits and fd for Generic sources; released fds are re-inserted; several Generic sources may share one (borrowed) fd, at most one of them registered at a time; after a successful (re)registration of a composite every kept child holds a sub-token.", "model-based property-based testing with a kernel oracle (/proc/self/fdinfo epoll table) after every generated step; thorough tier adds a coverage-guided libFuzzer campaign over the same history grammar and oracle"),
     "C03": ("sched", "exploration", "schedule exploration: generated thread interleavings at yield-site granularity (cooperative scheduler over the hook, proptest-generated + bounded-exhaustive DFS schedules) plus a free-running stress sub-check (real concurrency, CLOCK_MONOTONIC oracle) and single-thread history PBT; logical-clock oracle", "Actor threads with ping/clone/drop programs against a dispatching loop thread; the interleaving of every eventfd write, drain read and handle drop is the generated input; every ping served by a later callback, at most one callback per dispatch, no callback without a ping that can have landed after the previous drain, clean self-removal when the last handle goes, no spinning afterwards. Plus ping histories through the history machine.", "schedules are explored at the granularity of the hook's yield sites on x86-TSO with the real atomics; weaker memory orderings and preemption inside a site-free region are out of reach; blocked threads are detected through /proc", "DESIGN.md sections 3.4 and 4 C03"),
     "C04": ("sched", "exploration", "schedule exploration (generated interleavings of sender threads and the loop at enqueue / wake / wake-on-drop / try_recv / re-wake sites) + free-running stress sub-check + history PBT + batch-limit family; per-sender FIFO reference", "Per sender delivered == sent-Ok in order exactly once, one Closed after everything and only after every sender is gone, nothing after it, settle points show that no message stays queued without a pending wake-up, blocking sends complete while the loop dispatches (blocked senders detected via /proc, decided by state), queue lengths around the 1024 batch limit drain without external wake-up. Known finding F6 (sync_channel(0)) is listed and steered around.", "as C03; a stranded sender is decided by state (8 further dispatches, every unfinished sender asleep in the kernel, nothing delivered), never by a timeout alone", "DESIGN.md sections 3.4 and 4 C04"),
     "C10": ("sched", "exploration", "schedule exploration (generated interleavings of waker threads against the executor's enqueue / flag swap / eventfd write / flag clear / dequeue / re-wake / drop sites, incl. mid-poll) + free-running stress sub-check + executor batch-limit family + stream burst family + single-thread histories with Executor sources + scripted StreamSource", "Scripted non-Send futures: every scheduled future polled, a poll after every wake of a pending task, polls and drops only on the loop thread, each Ready(v) delivered exactly once, every future dropped exactly once when the executor goes (checked before the Scheduler goes), ExecutorDestroyed afterwards; 0..3100 ready tasks drain over consecutive dispatches without external wake-up, scheduling from callbacks and futures; stream items in order, one None, then removal. Known finding F7 (wake in flight while the executor is dropped) is listed and steered around.", "as C03; async-task's own atomics have no yield sites; windows that exist only in changed code have no site either", "DESIGN.md sections 3.4 and 4 C10"),
-    "C11": ("sched", "exploration", "schedule exploration (generated interleavings of stop/wakeup/waker.wake against run()/block_on() at every yield site, incl. mid-poll) + bounded-exhaustive DFS of tiny configurations", "Lost wake-ups and lost stops are decided by state: the loop thread provably asleep in the poller with an unserved wake-up / wake over 300 scheduling rounds; stop visible at the loop condition must end the loop; run/block_on return values need a cause.", "as C03; 'promptly' is never measured as a duration", "DESIGN.md sections 3.4 and 4 C11"),
+    "C11": ("sched", "exploration", "schedule exploration (generated interleavings of stop/wakeup/waker.wake against run()/block_on() at every yield site, incl. mid-poll) + bounded-exhaustive DFS of tiny configurations + deterministic in-loop family (stop/wake/complete/idle issued from callbacks on the loop thread) judged against a reference model of run()/block_on()", "Lost wake-ups and lost stops are decided by state: the loop thread provably asleep in the poller with an unserved wake-up / wake over 300 scheduling rounds; stop visible at the loop condition must end the loop; run/block_on return values need a cause; once stop() has returned, a loop thread that evaluates its condition afterwards must leave (run: no further iteration; block_on: None, no further poll). In-loop family: results, poll counts, completed iterations, idles and per-iteration closure runs equal the reference model.", "as C03; 'promptly' is never measured as a duration", "DESIGN.md sections 3.4 and 4 C11"),
     "C12": ("timing", "exploration", "property-based testing over dispatch configurations on the real monotonic clock: exact lower bound, 3-times-confirmed upper bound, dead-peer sources, helper-thread wake-ups", "Configurations of timeout class x timer sets x idle/dead-peer sources x optional helper thread; with no event and no wake-up the dispatch must last at least min(timeout, earliest deadline - t_before) exactly (monotonic clock argument), a limiting timer must have fired, zero timeout never blocks, None waits for the helper; oversleep beyond 60 ms only counts when it repeats 3 times.", "lower bound relies on CLOCK_MONOTONIC and hrtimers never firing early; upper bound detects systematic errors only; module written by a sub-agent, reviewed", "DESIGN.md section 4 C12"),
     "C17": ("asyncio", "exploration", "property-based testing of Async adapter sessions (payload, chunk plans, send-buffer sizes, topologies, dispatch plans) with a byte round-trip oracle, state-based stuck detection and fcntl flag checks; thorough tier adds a libFuzzer campaign over the same session grammar", "Five topologies over a socketpair driven by calloop's executor; bytes received == bytes sent in order; a task pending while poll(2) says its fd is ready and dispatches wake nothing is a lost wake (decided by state, 1+3 dispatches); O_NONBLOCK set while adapted and restored afterwards.", "spurious wake-ups are allowed; module written by a sub-agent, reviewed", "DESIGN.md section 4 C17"),
     "C18": ("transient", "exploration", "model-based property-based testing of TransientSource call sequences + bounded-exhaustive enumeration of all protocol-conforming sequences (thorough: up to length 6), kernel epoll table and timer heap as ground truth; thorough tier adds a libFuzzer campaign over the same alphabet", "Instrumented fd and timer children under a top-level and a composite parent; reference machine per child (Fresh/Kept/Disabled/Gone); after every step child registration flag == kernel table / timer heap == model; no double register/unregister, no drop while registered, forwarding only from the current child, only Continue/Reregister returned.", "only protocol-conforming sequences are generated (the docs warn about leaks otherwise); module written by a sub-agent, reviewed", "DESIGN.md section 4 C18"),
     "C19": ("signals", "exploration", "model-based property-based testing of signal-mask histories in a single-threaded process (proptest, reference model of mask / pending sets / handler counts)", "Histories of new/add/remove/set/raise/insert/dispatch/drop; after every op the real thread mask, sigpending() and counting handlers are compared with the model; dispatch results compared with pending configured instances incl. siginfo fields.", "single-threaded check process; Linux standard-signal semantics as stated in the module header", "DESIGN.md section 4 C19"),
     "C20": ("pure", "exploration",
-            "property-based testing (proptest) over (id,generation,sub) triples + bounded-exhaustive boundary planes + kernel epoll-table cross-check; thorough tier adds a libFuzzer campaign",
+            "property-based testing (proptest) over (id,generation,sub) triples + bounded-exhaustive boundary planes + kernel epoll-table cross-check; the arithmetic-sensitive cases run a second time in a build without overflow checks and debug assertions (cargo profile ship); thorough tier adds a libFuzzer campaign",
             "Random triples/pairs/raw keys (round trip, injectivity, field isolation, reserved key, bump/same_source laws), every generation x sub-id of 7 boundary slot indices (thorough: all 2^32 pairs per id; quick: sub-ids at stride 61), token factories up to and beyond 65536 requests, real loops with up to 131073 reuses of one slot compared with /proc fdinfo. Arithmetic over a finite domain: search plus enumeration is the natural level.",
             "trusts that the verif accessors are thin wrappers over TokenInner (hook commit) and that fdinfo reports epoll data faithfully; ids between boundary values are sampled, not enumerated",
             "DESIGN.md section 4 C20"),
